@@ -80,7 +80,7 @@ RENDER_BODY = r'''    pt, pf, ps = %r, %r, %r
 
 def build(tier, seed):
     quick = tier == "quick"
-    T = 90 if quick else 600
+    T = 240 if quick else 600
     obs = []
     # O1: placement predicates
     obs.append(Ob(
@@ -138,8 +138,8 @@ def build(tier, seed):
     me.figure_service = NS(_get_dimension=lambda d, i: 5.0,
                            _encode_single_figure=lambda data, fmt, w, h, align: "FIG%%d" %% data)
     import rtflite.figure as figmod
-    saved = figmod.rtf_read_figure
-    figmod.rtf_read_figure = lambda paths: (list(range(len(paths))), ["png"] * len(paths))
+    saved = swapped((figmod.rtf_read_figure, lambda paths: (list(range(len(paths))), ["png"] * len(paths))))
+    saved.__enter__()
     try:
         doc = NS(rtf_figure=NS(figures=["f"] * n, fig_width=[5.0], fig_height=[5.0], fig_align="center"),
                  rtf_title=NS(text=["t"]) if title else None, rtf_subline=NS(text=["s"]) if subl else None,
@@ -150,7 +150,7 @@ def build(tier, seed):
         import copy
         out = me._encode_figure_only(doc)
     finally:
-        figmod.rtf_read_figure = saved
+        saved.__exit__()
     body = out[out.index("SETTINGS") + len("SETTINGS"):]
     if not body.endswith("\n\n}"):
         return False
